@@ -380,6 +380,13 @@ def steer(pkg, rng, with_dates):
     pkg.files[fn].append(M.Record("SteerFlagRec", (), [("mode", M.Named("SteerFlags")), ("level", M.Prim("uint8"))]))
     first.steps.append(("steerflagitems", M.Named("SteerFlags"), True))
     first.steps.append(("steerflagrecs", M.Named("SteerFlagRec"), True))
+    # symbols that differ from each other in letter case only (kb / kB, mb / mB: legal camelCase): in an enumeration, as map
+    # keys, and in a flags type
+    pkg.files[fn].append(M.Enum("SteerRate", rng.choice([None, "uint8", "int32"]), [("bps", 0), ("kb", 1), ("kB", 2), ("mb", 3), ("mB", 4)]))
+    pkg.files[fn].append(M.Enum("SteerAccess", None, [("r", 1), ("rw", 2), ("rW", 4), ("x", 8), ("xX", 16), ("xx", 32)], flags=True))
+    first.steps.append(("steerrates", M.Named("SteerRate"), True))
+    first.steps.append(("steerratemap", M.Map(M.Named("SteerRate"), M.Prim("int32")), False))
+    first.steps.append(("steeraccess", M.Named("SteerAccess"), True))
     # a generic record whose type argument is what makes a field omittable
     pkg.files[fn].append(M.Record("SteerGen", ("T", "U"), [("id", M.Prim("int32")), ("payload", M.TParam("T")), ("extra", M.Vec(M.TParam("U")))]))
     first.steps.append(("steergen", M.Named("SteerGen", (M.Opt(M.Prim("int32")), M.Opt(M.Prim("string")))), True))
